@@ -52,7 +52,16 @@ Late(D) == {Mk2(D, Never, oi, TRUE, FALSE, After(D)) : oi \in {"die", "ignore"}}
 \* SIGQUIT itself, so that its children start out ignoring it).
 LateIgnAfter(D) == IntTime(D) + Grace(D) \div 2
 LateIgn(D) == IF Grace(D) >= 150 THEN {Mk2(D, Never, "ignore", TRUE, FALSE, LateIgnAfter(D)) @@ [ign |-> TRUE]} ELSE {}
+\* the same late start inside one script: under ContinueOnError the script's first command is stopped when the interrupt is
+\* due, and its second command (the case) starts then
+CoeIgn(D) == IF Grace(D) >= 150 THEN {Mk2(D, Never, "ignore", TRUE, FALSE, IntTime(D)) @@ [ign |-> TRUE, coe |-> TRUE]} ELSE {}
+\* a program run by a custom command through TestScript.Exec is under the deadline like one run by `exec`
+Cust(D) == {Mk(D, Never, oi, TRUE, FALSE) @@ [custom |-> TRUE] : oi \in {"die", "ignore"}}
+\* a background command that ignores the interrupt (SIGQUIT) but not what the end of the script sends it (SIGINT) runs
+\* beside a blocked foreground command: the script ends by the deadline all the same and nothing is left behind
+BgQuit(D) == {Mk(D, Never, "die", TRUE, FALSE) @@ [bg |-> TRUE]}
 Cases(D) == Forever(D) \cup Earlies(D) \cup SweepDie(D) \cup SweepIgn(D) \cup SweepKill(D) \cup Late(D) \cup LateIgn(D)
+            \cup CoeIgn(D) \cup Cust(D) \cup BgQuit(D)
 AllCases == UNION {Cases(D) : D \in Ds}
 
 Init == c \in AllCases /\ PrintT(<<"EMIT", ToJson(c)>>)
